@@ -38,6 +38,12 @@ instance : Neg GRat := ⟨fun a => ⟨-a.re, -a.im⟩⟩
 instance : Mul GRat := ⟨fun a b => ⟨a.re * b.re - a.im * b.im, a.re * b.im + a.im * b.re⟩⟩
 instance : OfNat GRat 0 := ⟨⟨0, 0⟩⟩
 instance : OfNat GRat 1 := ⟨⟨1, 0⟩⟩
+instance : NatCast GRat := ⟨fun n => ⟨(n : Rat), 0⟩⟩
+instance : Inhabited GRat := ⟨⟨0, 0⟩⟩
+instance : Zero GRat := ⟨⟨0, 0⟩⟩
+instance : Div GRat := ⟨fun a b =>
+  let d := b.re * b.re + b.im * b.im
+  ⟨(a.re * b.re + a.im * b.im) / d, (a.im * b.re - a.re * b.im) / d⟩⟩
 def conj (a : GRat) : GRat := ⟨a.re, -a.im⟩
 def ofRat (r : Rat) : GRat := ⟨r, 0⟩
 def I : GRat := ⟨0, 1⟩
